@@ -302,6 +302,17 @@ CHECKS += [
      "note": "oneshot runs in-process rather than in a container; the Batch API is a fake; monitor/arrayer threads are covered by C10/C11, not here."},
 ]
 
+CHECKS += [
+    {"id": "C23", "engine": "opseq", "level": "model_checking",
+     "technique": "explicit-state exploration of repository histories (runs, CLI tag commands) x root selections x transfer methods through the real CLI, "
+     "against a reference closure computed from raw SQL dumps; two-repository convergence; post-transfer cache differential",
+     "text": "Every source history of <=2 (quick) / <=3 (thorough) steps over 7 run kinds and 4 tag commands x root selection (all, each execution, "
+     "pairs, child job, call node, value) x push / pull / export+import: destination rows equal the harness's reference closure of the source, tag "
+     "currentness structural, foreign keys clean, repeat adds nothing; pairs of repositories synchronised in both orders converge to the union; after a "
+     "full transfer every next configuration returns the ground truth and runs at least the functions the source runs.",
+     "note": "SQLite only; handles, the evaluation table and Execution.updated_time are not transferred records; child order is compared as order, not as stored number."},
+]
+
 _ALL = [f"C{i:02d}" for i in range(1, 39)]
 _claimed = {c["id"] for c in CHECKS}
 _REASONS = {}
